@@ -457,14 +457,16 @@ impl Check for TreeProp {
         if self.id == "C15" && index % 10 == 3 {
             // API history: solve, solve again, re-setup with another problem, solve — the final
             // trees are checked in full
-            let mut geo = geo_for(&scn.space).unwrap();
-            let fam = *rng.pick(&["goal_overlap", "goal_overlap", "balls", "goal_invalid", "zero_weight"]);
+            let own_space = if rng.chance(0.4) { Some(gen::variant_space(&mut rng, &scn.space, None, 0.01)) } else { None };
+            let mut geo = geo_for(own_space.as_ref().unwrap_or(&scn.space)).unwrap();
+            let fam = *rng.pick(&["goal_overlap", "goal_overlap", "balls", "goal_invalid", "zero_weight", "thin_wall", "slivers"]);
             let wb = gen::build_world(&mut geo, &mut rng, ext, fam);
             scn.worlds.push(wb.world);
             scn.problems.push(ProblemSpec {
                 starts: vec![wb.start],
                 goal: GoalSpec { target: wb.target, radius: wb.goal_radius * rng.range(1.0, 2.5), sampler: GoalSampler::Harness, sampler_seed: rng.u64() % 1_000_000, comp: wb.goal_comp },
                 world: 1,
+                space: own_space,
             });
             scn.problems[0].goal.sampler = GoalSampler::Harness;
             scn.problems[0].goal.radius *= rng.range(1.0, 2.5);
@@ -620,7 +622,7 @@ impl TreeProp {
         rep.probe("history");
         let ev = Eval::new(scn, &out);
         let pk = scn.planner.kind.name();
-        let g = &ev.geo;
+        let g0 = &ev.geo;
         let mut v = vec![];
         'calls: for ci in ev.solve_calls() {
             let call = &out.calls[ci];
@@ -630,6 +632,7 @@ impl TreeProp {
             if matches!(call.res, Res::Err(crate::sim::ErrKind::InvalidStartState)) {
                 continue;
             }
+            let g = ev.g_at(ci);
             let acc = ev.accepted(setup_ev, call.ev_hi);
             let b = ev.step_bound();
             let (er, ea) = g.eps();
@@ -678,7 +681,7 @@ impl TreeProp {
                         v.push(viol("C15", format!("C15/edge_too_long/{pk}"), format!("call #{ci}: edge {p}->{j} has length {d} > extension bound {b}")));
                         break 'calls;
                     }
-                    if let Some((gap, at)) = ev.coverage_gap(&acc, &t[p].0, &node.0) {
+                    if let Some((gap, at)) = ev.coverage_gap_g(g, &acc, &t[p].0, &node.0) {
                         v.push(viol(
                             "C15",
                             format!("C15/edge_not_validated/{pk}/history"),
